@@ -65,9 +65,13 @@ static int run_scenario(const uint8_t *data, size_t n, CaseCtx &ctx) {
     GenInfo gi;
     std::vector<std::string> S;
     {
-      // text-like strings, 8-60 KB per block, 2-8 blocks
+      // text-like strings; shape 0: 2-8 blocks of 8-60 KB (workers overlap with one another);
+      // shapes 1,2: 30-4000 blocks of one or a few strings (workers finish while the producer is still
+      // cutting and queueing blocks, so producer-side accesses overlap with worker-side ones)
       XorShift x(s.u32() + 17);
+      int shape = s.below(3);
       size_t blocks = 2 + s.below(7), per = 8000 + s.below(50000);
+      if (shape) { blocks = 30 + s.below(shape == 1 ? 300 : 4000); per = 1 + s.below(64); ctx.labels.insert("tiny_blocks"); }
       size_t target = blocks * per, total = 0;
       while (total < target) {
         size_t L = 3 + x.below(30);
@@ -99,6 +103,7 @@ static int run_scenario(const uint8_t *data, size_t n, CaseCtx &ctx) {
       ctx.counters["blocks"] += parts;
       ctx.nontrivial = parts >= 2 && p.threads >= 2;
       if (parts >= 4) ctx.labels.insert("blocks_ge4");
+      if (parts >= 100) ctx.labels.insert("blocks_ge100");
       ctx.sample = "{\"scenario\":\"parallel_build\",\"strings\":" + std::to_string(S.size()) + ",\"bytes\":" + std::to_string(gi.total) + ",\"cut\":" + std::to_string(p.cut) + ",\"threads\":" + std::to_string(p.threads) + ",\"blocks\":" + std::to_string(parts) + "}";
     }
   } else {
